@@ -1177,6 +1177,7 @@ func (x *c04Exec) makeAuthors(repo repository.ClockedRepo, kr repository.Keyring
 					cand.SetMetadata(k, v)
 				}
 				in.IdBefore = cand.Id().String()
+				c04TickClocks(repo, i)
 				err = cand.Commit(repo)
 			}
 			if err == nil {
@@ -1193,8 +1194,14 @@ func (x *c04Exec) makeAuthors(repo repository.ClockedRepo, kr repository.Keyring
 			if err != nil {
 				return nil, err
 			}
+			before := id.Id()
+			c04TickClocks(repo, i)
 			if err := id.Commit(repo); err != nil {
 				return nil, err
+			}
+			x.count("identity_ids_compared_across_commit", 1)
+			if id.Id() != before {
+				x.find("identity-id-changed-by-commit", fmt.Sprintf("identity id %s after commit, %s before (the repository clocks moved in between)", id.Id(), before))
 			}
 		}
 		if keyed {
@@ -1219,6 +1226,18 @@ func (x *c04Exec) makeAuthors(repo repository.ClockedRepo, kr repository.Keyring
 		out = append(out, id)
 	}
 	return out, nil
+}
+
+// c04TickClocks moves the repository's logical clocks, as other users' edits and pulls do
+// between the moment an identity is created (and its id is handed out) and its commit.
+func c04TickClocks(repo repository.ClockedRepo, n int) {
+	for _, name := range []string{"bugs-create", "bugs-edit", "verif-other"} {
+		if c, err := repo.GetOrCreateClock(name); err == nil {
+			for k := 0; k <= n; k++ {
+				_, _ = c.Increment()
+			}
+		}
+	}
 }
 
 func c04Keyring(repo repository.ClockedRepo) repository.Keyring { return repo.Keyring() }
